@@ -552,6 +552,33 @@ def gen_C04(w, tier):
                     return None
                 sc.pred = pred
                 out.append(sc)
+    # "with a uniformly drawn scalar the message is uniformly distributed": enumerate the ENTROPY TAPES of the
+    # sampler on groups whose scalars fit one byte -- every subgroup element for the same number of tapes
+    for name, ps in w.ps.items():
+        if not ps.toy or ps.base or ps.kind != "int" or ps.ssize != 1:
+            continue
+        for side in "AS":
+            pw = toy_passwords(w, ps)[-1]
+            sc = w.scenario("C04/%s/tapes/%s" % (name, side), ("entropy-tapes", "side:" + side))
+            idx = []
+            for b in range(256):
+                s_ = sc.new(side, ps, pw, b"", b"", bytes([b]), EXACT)
+                idx.append(len(sc.lines))
+                sc.start(s_, EXACT)
+            sc.meta.update(idx=idx, q=ps.q)
+
+            def pred_t(io, sc):
+                counts = {}
+                for i in sc.meta["idx"]:
+                    m = payload(io[i])
+                    if m is not None:
+                        counts[m] = counts.get(m, 0) + 1
+                if len(counts) != sc.meta["q"] or len(set(counts.values())) != 1:
+                    return "over all one-byte entropy tapes the messages are not uniform on the subgroup: %d distinct, counts %s" % (
+                        len(counts), sorted(set(counts.values())))
+                return None
+            sc.pred = pred_t
+            out.append(sc)
     # shipped groups: msg - w*M == x*G, and the identity strings never influence the message
     for name, ps in w.ps.items():
         if ps.toy or ps.base:
